@@ -1042,7 +1042,7 @@ class Translator:
         out.reverse()
         return out
 
-    def defaults(self, cls):
+    def defaults(self, cls, loaded=()):
         """integer/bool/enum members with a constant initial value: in-class initialisers, then
         assignments of constants in the default constructors, base classes first"""
         vals = {}
@@ -1069,7 +1069,8 @@ class Translator:
                             v = astload._const_value2(st["inner"][1], self.idx.enums)
                             if v is not None and lhs["name"] in owner:
                                 vals[owner[lhs["name"]] + "::" + lhs["name"]] = v
-        return [("assign", k, [], types[k], ("const", v)) for k, v in sorted(vals.items()) if v != 0]
+        # non-zero constants always; zero ones only for members that some condition/count of the block reads
+        return [("assign", k, [], types[k], ("const", v)) for k, v in sorted(vals.items()) if v != 0 or k in loaded]
 
     def block_ir(self, cls):
         """IR of a whole block: NiObject's groupID gate, then every Sync of the class chain"""
@@ -1123,6 +1124,22 @@ def resolve_hastype(ir, tr, cls):
             return [go(y) for y in x]
         return x
     return go(ir)
+
+
+def loaded_names(ir):
+    out = set()
+
+    def go(x):
+        if isinstance(x, tuple) and x:
+            if x[0] == "load" and isinstance(x[1], str):
+                out.add(x[1])
+            for y in x:
+                go(y)
+        elif isinstance(x, list):
+            for y in x:
+                go(y)
+    go(ir)
+    return out
 
 
 def find_conflicts(ir):
